@@ -1037,3 +1037,119 @@ func E9ContainsFlow(c *core.Ctx, r *core.Report) {
 }
 
 var _ = packages.NeedName
+
+// E9AbsorbedLink: a segment that absorbs the segments below it is re-linked to the first segment it did not absorb.
+func E9AbsorbedLink(c *core.Ctx, r *core.Report) {
+	r.Rule("E9.absorbed-link", "in the sweep, segments merged into an overlapping segment are marked `overlapped` and their windings are zeroed; they take no part in the result. A function that walks down from R.prev marking segments overlapped therefore ends, on every path on which it absorbed at least one segment, by assigning R.prev the first segment it did not absorb (the walk variable): the contour builder reads cur.prev.resultWindings to decide whether a contour is a hole, and a link to an absorbed segment always says \"outermost\"")
+	p := c.MustPkg("")
+	info := p.TypesInfo
+	n := 0
+	for _, fd := range core.AllFuncDecls(p) {
+		if fd.Body == nil || !strings.HasSuffix(c.Fset.Position(fd.Pos()).Filename, "path_intersection.go") {
+			continue
+		}
+		// walker := R.prev … for ; walker != nil; walker = walker.prev { … walker.overlapped = true … }
+		for i, st := range fd.Body.List {
+			loop, ok := st.(*ast.ForStmt)
+			if !ok || loop.Post == nil {
+				continue
+			}
+			post, ok := loop.Post.(*ast.AssignStmt)
+			if !ok || len(post.Lhs) != 1 || len(post.Rhs) != 1 {
+				continue
+			}
+			wid, ok := post.Lhs[0].(*ast.Ident)
+			if !ok {
+				continue
+			}
+			w := core.ObjOf(info, wid)
+			sel, ok := core.Unparen(post.Rhs[0]).(*ast.SelectorExpr)
+			if !ok || sel.Sel.Name != "prev" {
+				continue
+			}
+			if id, ok := core.Unparen(sel.X).(*ast.Ident); !ok || core.ObjOf(info, id) != w {
+				continue
+			}
+			marks := false
+			ast.Inspect(loop.Body, func(m ast.Node) bool {
+				if as, ok := m.(*ast.AssignStmt); ok && len(as.Lhs) == 1 {
+					if ls, ok := as.Lhs[0].(*ast.SelectorExpr); ok && ls.Sel.Name == "overlapped" {
+						if id, ok := core.Unparen(ls.X).(*ast.Ident); ok && core.ObjOf(info, id) == w {
+							if rid, ok := as.Rhs[0].(*ast.Ident); ok && rid.Name == "true" {
+								marks = true
+							}
+						}
+					}
+				}
+				return true
+			})
+			if !marks {
+				continue
+			}
+			// the root R: walker initialised from R.prev before the loop
+			var root types.Object
+			for _, before := range fd.Body.List[:i] {
+				if as, ok := before.(*ast.AssignStmt); ok && len(as.Lhs) == 1 && len(as.Rhs) == 1 {
+					if id, ok := as.Lhs[0].(*ast.Ident); ok && core.ObjOf(info, id) == w {
+						if rs, ok := core.Unparen(as.Rhs[0]).(*ast.SelectorExpr); ok && rs.Sel.Name == "prev" {
+							if rid, ok := core.Unparen(rs.X).(*ast.Ident); ok {
+								root = core.ObjOf(info, rid)
+							}
+						}
+					}
+				}
+			}
+			if root == nil {
+				continue
+			}
+			n++
+			key := "canvas." + core.FuncName(fd) + "|re-linked past the absorbed segments"
+			// after the loop: top-level statements; early returns allowed only under `walker == R.prev`
+			relinked := false
+			bad := ""
+			for _, after := range fd.Body.List[i+1:] {
+				switch x := after.(type) {
+				case *ast.AssignStmt:
+					if len(x.Lhs) == 1 && len(x.Rhs) == 1 {
+						if ls, ok := x.Lhs[0].(*ast.SelectorExpr); ok && ls.Sel.Name == "prev" {
+							if id, ok := core.Unparen(ls.X).(*ast.Ident); ok && core.ObjOf(info, id) == root {
+								if rid, ok := core.Unparen(x.Rhs[0]).(*ast.Ident); ok && core.ObjOf(info, rid) == w {
+									relinked = true
+								}
+							}
+						}
+					}
+				case *ast.IfStmt:
+					if allPathsReturn(x.Body) && x.Else == nil {
+						// must be the "nothing absorbed" test: walker == R.prev
+						okCond := false
+						if be, ok := core.Unparen(x.Cond).(*ast.BinaryExpr); ok && be.Op == token.EQL {
+							l, r2 := types.ExprString(be.X), types.ExprString(be.Y)
+							want1, want2 := w.Name(), root.Name()+".prev"
+							if l == want1 && r2 == want2 || l == want2 && r2 == want1 {
+								okCond = true
+							}
+						}
+						if !okCond && !relinked {
+							bad = "the function can return before the re-link under `" + types.ExprString(x.Cond) + "`, which is not the nothing-absorbed test"
+						}
+					}
+				case *ast.ReturnStmt:
+					if !relinked {
+						bad = "the function returns before the re-link"
+					}
+				}
+			}
+			switch {
+			case bad != "":
+				r.Fail("E9.absorbed-link", key, c.Pos(loop.Pos()), bad)
+			case !relinked:
+				r.Fail("E9.absorbed-link", key, c.Pos(loop.Pos()), fmt.Sprintf("after absorbing the segments below it, `%s.prev` is not set to the first segment that was not absorbed (`%s`): it keeps pointing at an absorbed segment, whose result windings are 0, so a hole that starts on a merged edge is built as an outer contour (counter-clockwise, filled under NonZero)", root.Name(), w.Name()))
+			default:
+				r.OK("E9.absorbed-link", key, c.Pos(loop.Pos()), "")
+			}
+		}
+	}
+	r.Count("E9.absorbing-walks", n)
+	r.Floor("E9.absorbing-walks", 1)
+}
